@@ -24,6 +24,9 @@ pub struct WorkerOutput {
     pub lines: Vec<String>,
     pub ok: bool,
     pub status: String,
+    /// the worker printed nothing for `VERIF_STALL_S` seconds and was killed: whatever it was
+    /// doing (announced by its last line) does not come back
+    pub stalled: bool,
 }
 
 /// Start `n` copies of the current executable with the given arguments (plus the worker index
@@ -61,10 +64,36 @@ pub fn fan_out(n: usize, args: &[String]) -> Vec<WorkerOutput> {
                     }
                 }
             });
-            let lines: Vec<String> = BufReader::new(out)
-                .lines()
-                .map(|l| l.unwrap_or_default())
-                .collect();
+            // progress watchdog (only when VERIF_STALL_S is set): a worker announces every
+            // execution before it starts it; silence for that long means the execution blocks on
+            // something no simulated step can resolve
+            let stall_s = std::env::var("VERIF_STALL_S").ok().and_then(|s| s.parse::<u64>().ok()).filter(|d| *d > 0);
+            let last_line = std::sync::Arc::new(std::sync::Mutex::new(std::time::Instant::now()));
+            let finished = std::sync::Arc::new(std::sync::atomic::AtomicBool::new(false));
+            let stalled = std::sync::Arc::new(std::sync::atomic::AtomicBool::new(false));
+            if let Some(limit) = stall_s {
+                let (last_line, finished, stalled) = (std::sync::Arc::clone(&last_line), std::sync::Arc::clone(&finished), std::sync::Arc::clone(&stalled));
+                let pid = child.id();
+                std::thread::spawn(move || loop {
+                    std::thread::sleep(std::time::Duration::from_millis(500));
+                    if finished.load(std::sync::atomic::Ordering::Relaxed) {
+                        return;
+                    }
+                    if last_line.lock().unwrap().elapsed().as_secs() >= limit {
+                        stalled.store(true, std::sync::atomic::Ordering::Relaxed);
+                        unsafe {
+                            libc::kill(pid as i32, libc::SIGKILL);
+                        }
+                        return;
+                    }
+                });
+            }
+            let mut lines: Vec<String> = Vec::new();
+            for l in BufReader::new(out).lines() {
+                *last_line.lock().unwrap() = std::time::Instant::now();
+                lines.push(l.unwrap_or_default());
+            }
+            finished.store(true, std::sync::atomic::Ordering::Relaxed);
             // a worker that outlives the deadline is a harness problem (e.g. code under test that
             // blocks on a primitive the simulator does not model), never a verdict
             let deadline = std::env::var("VERIF_WORKER_DEADLINE_S")
@@ -99,6 +128,7 @@ pub fn fan_out(n: usize, args: &[String]) -> Vec<WorkerOutput> {
                 lines,
                 ok: status.success(),
                 status: format!("{status}"),
+                stalled: stalled.load(std::sync::atomic::Ordering::Relaxed),
             }
         }));
     }
